@@ -12,11 +12,25 @@
    page, a freshly allocated page is modified (marked dirty) before it is evicted - then every page
    reads exactly as with an unbounded cache; evicted pages are always clean and equal to their file
    image (invariant pi_clean).
-   PARTIAL: that every B+ tree operation of btree.go / relation.go respects the discipline once the
-   capacity exceeds a few times the tree height is NOT proved (it needs the trace of fetches each
-   operation issues); it is validated on every run by executing the same histories with caches of
-   6..64 pages against the default 10000 and against the cache-less model (tools/props/c16.py), and
-   the page-store model itself is compared with the real fileStore on random traces. *)
+   PROVED UNCONDITIONALLY (Proofs/PStoreReads.v, theorems at the end of this file; no `ok_run`
+   hypothesis on the continuation): for EVERY capacity >= 1, after a run within the discipline that
+   leaves no allocated-but-unmodified page, and a flush (any visiting order) - which leaves no dirty
+   entry -, every list of fetches is within the discipline and each of them returns the content of
+   the unbounded reference: reads after a flush never depend on the cache size
+   (C16_reads_after_flush_any_capacity). So is one fetch-and-modify through the object just fetched
+   (C16_fetch_modify_in_discipline, C16_write_after_flush_any_capacity), and more generally any
+   caller script of reads and FEWER THAN `cap` page updates (fetch, then modify the object fetched):
+   a fetch is accepted while fewer than `cap` entries are dirty and an update dirties at most one
+   more entry (C16_updates_after_flush_in_discipline, stated on the check's own scope function
+   `in_discipline`). The bound is sharp: `cap` updates and then a read of another page is refused
+   (C16_update_bound_sharp).
+   PARTIAL (checked only): that the fetch/modify traces of the write statements of btree.go /
+   relation.go - which hold several objects at once across further fetches, allocate pages and
+   modify more pages than the scripts above - respect the discipline once the capacity exceeds a few
+   times the tree height is NOT proved (it needs the trace of fetches each operation issues); it is
+   validated on every run by executing the same histories with caches of 6..64 pages against the
+   default 10000 and against the cache-less model (tools/props/c16.py), and the page-store model
+   itself is compared with the real fileStore on random traces. *)
 From Coq Require Import List NArith.
 From Mkdb Require Import Model.PStore Spec.PStoreSpec Proofs.PStoreProofs.
 Import ListNotations.
@@ -133,4 +147,120 @@ Example C16_wrong_kinds_now_rejected :
   map (fun io => ps_model_agrees (3%nat, ex_hops, ex_obs_with (fst io) (snd io)))
       [(10%nat, PRefused); (12%nat, PUnit); (5%nat, PRefused); (7%nat, PObj 10 41); (1%nat, PObj 1 11);
        (4%nat, PRefused)] = [false; false; false; false; false; false].
+Proof. vm_compute. repeat split; reflexivity. Qed.
+
+(* ====================== unconditional criteria for the discipline ======================
+   Proofs/PStoreReads.v. None of the theorems below has an `ok_run` hypothesis on the continuation
+   (the part after the flush): the discipline is PROVED for it. *)
+From Mkdb Require Import Proofs.LruProofs Proofs.PStoreReads.
+
+(* reads after a flush, at every capacity >= 1: within the discipline; the cache shows the reference
+   map; the reference is the one before the flush; each fetch returns the reference content *)
+Theorem C16_reads_after_flush_any_capacity : forall cap ops order fs,
+  (1 <= cap)%nat ->
+  ok_run (ps_init cap) [] ops = true -> pend_of ops = [] -> all_fetches fs = true ->
+  ok_run (ps_init cap) [] (ops ++ PFlush order :: fs) = true /\
+  (forall k, ps_view (fst (ps_run (ps_init cap) (ops ++ PFlush order :: fs))) k =
+             ref_get k (ref_run [] (ops ++ PFlush order :: fs))) /\
+  (forall k, ref_get k (ref_run [] (ops ++ PFlush order :: fs)) = ref_get k (ref_run [] ops)) /\
+  (forall fs1 k fs2, fs = fs1 ++ PFetch k :: fs2 ->
+     match snd (ps_step (fst (ps_run (ps_init cap) (ops ++ PFlush order :: fs1))) (PFetch k)) with
+     | PObj _ c => c = ref_get k (ref_run [] ops)
+     | _ => False
+     end).
+Proof.
+  intros cap ops order fs Hcap Hok Hpend Hfs.
+  split; [apply reads_after_flush_in_discipline | apply reads_after_flush_see_reference]; assumption.
+Qed.
+Print Assumptions C16_reads_after_flush_any_capacity.
+
+(* from any state with no dirty entry (LRU invariant: distinct keys, at most cap entries - it holds
+   in every state of every run, PStoreReads.ps_run_Inv): every list of fetches *)
+Theorem C16_reads_in_discipline : forall fs s,
+  Inv (ps_cache s) -> (1 <= Lru.cap (ps_cache s))%nat -> no_dirty s = true -> all_fetches fs = true ->
+  ok_run s [] fs = true.
+Proof. exact reads_in_discipline. Qed.
+Print Assumptions C16_reads_in_discipline.
+
+(* a flush leaves no dirty entry, whatever the order in which it visits the pages *)
+Theorem C16_flush_leaves_no_dirty : forall cap ops order,
+  no_dirty (fst (ps_step (fst (ps_run (ps_init cap) ops)) (PFlush order))) = true.
+Proof. intros cap ops order. apply (flushed_state cap ops order). Qed.
+Print Assumptions C16_flush_leaves_no_dirty.
+
+(* one fetch-and-modify through the object the fetch returned *)
+Theorem C16_fetch_modify_in_discipline : forall s k o c0 c,
+  Inv (ps_cache s) -> (1 <= Lru.cap (ps_cache s))%nat -> no_dirty s = true ->
+  snd (ps_step s (PFetch k)) = PObj o c0 ->
+  ok_run s [] [PFetch k; PModify k o c] = true.
+Proof. exact fetch_modify_in_discipline. Qed.
+Print Assumptions C16_fetch_modify_in_discipline.
+
+(* the same over reachable states, after any reads: within the discipline at every capacity >= 1;
+   the fetch returned the reference content and the page then reads as the content written *)
+Theorem C16_write_after_flush_any_capacity : forall cap ops order fs k o c0 c,
+  (1 <= cap)%nat ->
+  ok_run (ps_init cap) [] ops = true -> pend_of ops = [] -> all_fetches fs = true ->
+  snd (ps_step (fst (ps_run (ps_init cap) (ops ++ PFlush order :: fs))) (PFetch k)) = PObj o c0 ->
+  let all := (ops ++ PFlush order :: fs) ++ [PFetch k; PModify k o c] in
+  ok_run (ps_init cap) [] all = true /\
+  c0 = ref_get k (ref_run [] ops) /\
+  ps_view (fst (ps_run (ps_init cap) all)) k = c.
+Proof. exact write_after_flush_in_discipline. Qed.
+Print Assumptions C16_write_after_flush_any_capacity.
+
+(* caller level, on the scope function of the page-store check: a case within the discipline with no
+   pending page, extended by a flush and a script of reads and fewer than `cap` page updates, is
+   within the discipline (whatever was observed), and the cache shows the reference map *)
+Theorem C16_updates_after_flush_in_discipline : forall cap hops order sc obs obs',
+  in_discipline (cap, hops, obs) = true ->
+  pend_of (fst (hrun (ps_init cap) [] hops)) = [] -> (nwrites sc < cap)%nat ->
+  let hops' := hops ++ HFlush order :: script_hops sc in
+  in_discipline (cap, hops', obs') = true /\
+  forall k, ps_view (fst (ps_run (ps_init cap) (fst (hrun (ps_init cap) [] hops')))) k =
+            ref_get k (ref_run [] (fst (hrun (ps_init cap) [] hops'))).
+Proof.
+  intros cap hops order sc obs obs' Hin Hpend Hn.
+  exact (caller_updates_after_flush_in_discipline cap hops order sc Hin Hpend Hn).
+Qed.
+Print Assumptions C16_updates_after_flush_in_discipline.
+
+(* non-vacuity, capacity 1: three pages written and flushed one after the other, a flush, then six
+   fetches of three distinct pages - five of them misses that evict the only resident page (fresh
+   object identities 4..8; the repeated fetch of page 1 is a hit): the hypotheses hold, the run is
+   within the discipline and the fetches return 11, 21, 31, 11, 11, 21 *)
+Definition ex_w_ops : list pop :=
+  [PAlloc 1 10; PModify 1 1 11; PFlush []; PAlloc 2 20; PModify 2 2 21; PFlush [];
+   PAlloc 3 30; PModify 3 3 31].
+Definition ex_r_ops : list pop := [PFetch 1; PFetch 2; PFetch 3; PFetch 1; PFetch 1; PFetch 2].
+Example C16_reads_after_flush_nonvacuous :
+  ok_run (ps_init 1) [] ex_w_ops = true /\ pend_of ex_w_ops = [] /\ all_fetches ex_r_ops = true /\
+  ok_run (ps_init 1) [] (ex_w_ops ++ PFlush [] :: ex_r_ops) = true /\
+  skipn 9 (snd (ps_run (ps_init 1) (ex_w_ops ++ PFlush [] :: ex_r_ops))) =
+    [PObj 4 11; PObj 5 21; PObj 6 31; PObj 7 11; PObj 7 11; PObj 8 21] /\
+  Lru.resident (ps_cache (fst (ps_run (ps_init 1) (ex_w_ops ++ PFlush [] :: ex_r_ops)))) =
+    [(2, 8, false)].
+Proof. vm_compute. repeat split; reflexivity. Qed.
+
+(* capacity 2, caller level: after the flush a script with one update (1 < 2) among reads of three
+   distinct pages, with evictions; the updated page is dirty, hence never the victim, and is read
+   back as 22 through a hit *)
+Definition ex_w_hops : list hop :=
+  [HAlloc 1 10; HModify 1 11; HFlush []; HAlloc 2 20; HModify 2 21; HFlush []; HAlloc 3 30; HModify 3 31].
+Definition ex_script : list uop := [URead 1; UWrite 2 22; URead 3; URead 1; URead 2].
+Example C16_updates_after_flush_nonvacuous :
+  in_discipline (2%nat, ex_w_hops, []) = true /\ pend_of (fst (hrun (ps_init 2) [] ex_w_hops)) = [] /\
+  nwrites ex_script = 1%nat /\
+  in_discipline (2%nat, ex_w_hops ++ HFlush [] :: script_hops ex_script, []) = true /\
+  skipn 9 (snd (hrun (ps_init 2) [] (ex_w_hops ++ HFlush [] :: script_hops ex_script))) =
+    [PObj 4 11; PObj 5 21; PUnit; PObj 6 31; PObj 7 11; PObj 5 22].
+Proof. vm_compute. repeat split; reflexivity. Qed.
+
+(* the bound `nwrites sc < cap` is sharp: with `cap` updates after the flush the cache is full of
+   dirty pages and the read of another page is refused (capacity 1: one update; capacity 2: two) *)
+Example C16_update_bound_sharp :
+  in_discipline (1%nat, ex_w_hops ++ HFlush [] :: script_hops [UWrite 2 22; URead 3], []) = false /\
+  last (snd (hrun (ps_init 1) [] (ex_w_hops ++ HFlush [] :: script_hops [UWrite 2 22; URead 3]))) PUnit = PRefused /\
+  in_discipline (2%nat, ex_w_hops ++ HFlush [] :: script_hops [UWrite 2 22; UWrite 3 32; URead 1], []) = false /\
+  last (snd (hrun (ps_init 2) [] (ex_w_hops ++ HFlush [] :: script_hops [UWrite 2 22; UWrite 3 32; URead 1]))) PUnit = PRefused.
 Proof. vm_compute. repeat split; reflexivity. Qed.
